@@ -377,3 +377,32 @@ Theorem C02q_fire_event_places_stable :
               (p < List.length (ns_places s) -> has_place s' p = true -> has_place s p = true).
 Proof. exact sched_fire_event_places_stable. Qed.
 Print Assumptions C02q_fire_event_places_stable.
+
+(* ==== the fuel only bounds the search ==== *)
+
+Theorem C02q_fuel_monotone_block :
+  forall tasks env f f', f <= f' ->
+    mle (evaluate tasks env f) (evaluate tasks env f') /\
+    (forall c, mle (run_cb tasks env f c) (run_cb tasks env f' c)) /\
+    (forall a, mle (on_task_started tasks env f a) (on_task_started tasks env f' a)) /\
+    (forall a, mle (on_service_started tasks env f a) (on_service_started tasks env f' a)) /\
+    (forall a, mle (on_service_finished tasks env f a) (on_service_finished tasks env f' a)) /\
+    (forall a, mle (on_task_finished tasks env f a) (on_task_finished tasks env f' a)) /\
+    (forall k a b, mle (notify_user tasks env f k a b) (notify_user tasks env f' k a b)) /\
+    (forall k a, mle (engine_reacts tasks env f k a) (engine_reacts tasks env f' k a)) /\
+    (forall ev, mle (sched_fire_event tasks env f ev) (sched_fire_event tasks env f' ev)) /\
+    (forall ev, mle (logic_fire_event tasks env f ev) (logic_fire_event tasks env f' ev)).
+Proof. exact fuel_mono_block. Qed.
+Print Assumptions C02q_fuel_monotone_block.
+
+Theorem C02q_api_call_fuel_monotone :
+  forall tasks env f f' s c r,
+    f <= f' -> net_api_call tasks env f s c = Ok r -> net_api_call tasks env f' s c = Ok r.
+Proof. exact api_call_fuel_mono. Qed.
+Print Assumptions C02q_api_call_fuel_monotone.
+
+Theorem C02q_script_fuel_monotone :
+  forall tasks env f f' cs s r,
+    f <= f' -> net_run_script tasks env f s cs = Ok r -> net_run_script tasks env f' s cs = Ok r.
+Proof. exact net_run_script_fuel_mono. Qed.
+Print Assumptions C02q_script_fuel_monotone.
